@@ -111,9 +111,14 @@ func (s *server) didOpen(ctx context.Context, params lsp.DidOpenTextDocumentPara
 }
 
 func (s *server) didChange(ctx context.Context, params lsp.DidChangeTextDocumentParams) (any, error) {
-	// ContentChanges includes full text since the server is only advertised to
-	// support that; see the initialize method.
-	uri, content := params.TextDocument.URI, params.ContentChanges[0].Text
+	// Each element of ContentChanges is the full text since the server is only
+	// advertised to support that; see the initialize method. The changes apply
+	// in order, so the last one is the current text.
+	changes := params.ContentChanges
+	if len(changes) == 0 {
+		return nil, errInvalidParams
+	}
+	uri, content := params.TextDocument.URI, changes[len(changes)-1].Text
 	s.updateDocument(conn(ctx), uri, content)
 	return nil, nil
 }
